@@ -712,7 +712,11 @@ func gRunHistory(out *vOut, r *rand.Rand, id int, big bool) {
 						pip = hips[r.Intn(len(hips))]
 					}
 				}
-				ok := a.checkSharing(ps, pip.String(), pq.Ports, &key{sharing: pq.Sharing, backend: pq.Backend}) == nil
+				ok, avail := gProbeSharing(a, ps, pip.String(), pq.Ports, pq.Sharing, pq.Backend)
+				if !avail { // checkSharing cannot be called on this tree: no white-box probes
+					out.Stat("whitebox_skipped:checkSharing", 1)
+					break
+				}
 				probes = append(probes, cCtor("Build_probe", cNi(gNum(gN.svc, ps)), cIP(pip), cPorts(pq.Ports), cKey(pq.Sharing, pq.Backend), cBool(ok)))
 				// C11 oracle half: the allocator's verdict equals the statement's sharing rule
 				want := o.oFree(a, ps, pq, pip)
@@ -924,8 +928,8 @@ func gRunHistory(out *vOut, r *rand.Rand, id int, big bool) {
 				out.Stat("released_addresses", 1)
 				pq := gGenReq(r, "ns1/probe")
 				want := o.oFree(a, "ns1/probe", pq, x)
-				got := a.checkSharing("ns1/probe", x.String(), pq.Ports, &key{sharing: pq.Sharing, backend: pq.Backend}) == nil
-				if want && !got {
+				got, avail := gProbeSharing(a, "ns1/probe", x.String(), pq.Ports, pq.Sharing, pq.Backend)
+				if avail && want && !got {
 					fail("alloc-released-not-reusable", fmt.Sprintf("%s released %s but it is still reserved", op.Svc, x))
 				}
 			}
